@@ -282,8 +282,9 @@ impl<'a> Gen<'a> {
                     ints.push(format!("{}()", f)); feats.push("global-mut"); }
                 11 => { // a global that is read, inside a function, before this source defines it: a fresh VM has nothing there
                     let g = self.fresh("late"); let f = self.fresh("peek"); let r = self.fresh("seen"); let v = self.int();
-                    s += &format!("fn {f}() {{ return {g} }}\nlet {r} = {f}()\nlet {g} = {v}\n");
-                    ints.push(format!("if {r} == null {{ -1 }} else {{ {r} }}")); feats.push("late-global"); }
+                    let ok = self.fresh("orm");
+                    s += &format!("fn {f}() {{ return {g} }}\nlet {r} = {f}()\nlet {g} = {v}\nfn {ok}(v) {{ if v == null {{ return -1 }} return v }}\n");
+                    ints.push(format!("{ok}({r})")); feats.push("late-global"); }
                 _ => { // several calls of several functions (call-site cache slots)
                     let f = self.fresh("p"); let g = self.fresh("q"); let a = self.int(); let b = self.int();
                     s += &format!("fn {f}() {{ return {a} }}\nfn {g}() {{ return {b} }}\n");
@@ -693,7 +694,8 @@ fn compile_like_cli(path: &std::path::Path, opt: u32) -> Result<Vec<u8>, String>
     let stmts = Parser::new(tokens, src.clone()).parse().map_err(|e| e.to_string())?;
     let mut vm = VM::with_config_and_args(src.clone(), VmConfig::default(), Vec::new()).map_err(|e| e.to_string())?;
     if let Ok(abs) = path.canonicalize() { vm.set_script_path(abs.display().to_string()); } else { vm.set_script_path(path.display().to_string()); }
-    let (imports, loader) = load_modules_with_loader(&stmts, path, src.clone(), &mut vm).map_err(|e| e.to_string())?;
+    let (mut imports, loader) = load_modules_with_loader(&stmts, path, src.clone(), &mut vm).map_err(|e| e.to_string())?;
+    imports.include_auto_registered(&vm);
     let main_stmts: Vec<_> = stmts.into_iter().filter(|s| !matches!(s.kind, StmtKind::Needs(_))).collect();
     let mut all_known = imports.known_globals.clone();
     for b in ["alloc", "free", "load", "store", "type"] { all_known.insert(b.to_string()); }
@@ -781,6 +783,28 @@ fn det_source(rng: &mut Rng, dir: &std::path::Path, idx: usize) -> (std::path::P
         if rng.chance(1, 2) { tail += &format!("let fwlam{} = fn(x) {{ return x + {} }}\n", idx, calls.join(" + ")); feats.push("lambda-forward-globals"); }
         for j in 0..k { tail += &format!("fn fwd{}_{}() {{ return {} }}\n", idx, j, rng.below(90)); }
         feats.push("forward-globals");
+    }
+    // block-bodied lambdas that are the FIRST to name several globals (user functions declared later, std natives),
+    // the enclosing code using some of them afterwards; also nested in another lambda and inside a function
+    if rng.chance(2, 3) {
+        let k = 2 + rng.below(4);
+        let shape = rng.below(3);
+        let mut body = String::new();
+        for j in 0..k { body += &format!("    let v{} = lb{}_{}({})\n", j, idx, j, j); }
+        let std_math = !used.contains(&"math") && rng.chance(1, 2);
+        if std_math { head += "needs std.math\n"; body += "    let vm = math.sqrt(16.0) + math.floor(2.5)\n    let vs = string.len(\"hello\")\n"; }
+        body += "    return v0 + x\n";
+        match shape {
+            0 => tail += &format!("let blam{} = fn(x) {{\n{}}}\n", idx, body),
+            1 => tail += &format!("let blam{} = fn(x) {{\n    let inner = fn(y) {{\n{}    }}\n    return inner(x)\n}}\n", idx, body.replace("+ x", "+ y").replace("    ", "        ")),
+            _ => tail += &format!("fn bhost{}(x) {{\n    let inner = fn(y) {{\n{}    }}\n    return inner(x)\n}}\n", idx, body.replace("+ x", "+ y").replace("    ", "        ")),
+        }
+        // afterwards the enclosing code uses some of the same globals (in another order)
+        for j in (0..k).rev() { if rng.chance(2, 3) { tail += &format!("let after{}_{} = lb{}_{}(7)\n", idx, j, idx, j); } }
+        if std_math { tail += "let afterm = math.floor(7.9)\nlet afters = string.len(\"ab\")\n"; }
+        for j in 0..k { tail += &format!("fn lb{}_{}(a) {{ return a + {} }}\n", idx, j, rng.below(50)); }
+        feats.push("block-lambda-new-globals");
+        if shape > 0 { feats.push("nested-block-lambda"); }
     }
     // a nested function owning several interned strings (Heap::merge walks the intern table)
     if rng.chance(1, 2) {
